@@ -93,7 +93,7 @@ def conserve(ctx, shard, nshards):
     rnd = random.Random(ctx.sub_seed("c06", shard))
     B = boundary()
     subsets = ALL[shard::nshards]
-    reps = 40 if not ctx.thorough else 600
+    reps = 400 if not ctx.thorough else 3000
     for us0 in subsets:
         for rp in range(reps):
             kind = G.classify(us0)
